@@ -63,6 +63,8 @@ fn run_case(seed: u64, idx: u64, _tier: Tier, out: &mut CaseOut) {
     p.a_name = true;
     p.stray_in_table = rng.chance(1, 4);
     p.edge_space = rng.chance(1, 3);
+    p.href_controls = rng.chance(1, 2);
+    p.odd_hrefs = rng.chance(1, 4);
     let doc = gen_doc(&mut rng, &p);
     let mut input = ser_varied(&doc, &mut rng);
     if rng.chance(1, 5) {
@@ -96,6 +98,10 @@ fn run_case(seed: u64, idx: u64, _tier: Tier, out: &mut CaseOut) {
     };
     let mut cfg = Cfg::new(deco);
     layout_opts(&mut rng, &mut cfg, 100);
+    // (footnotes with every decorator: the list is text that all routes must agree on)
+    if rng.chance(1, 3) {
+        cfg.footnotes = Some(true);
+    }
     if rng.chance(1, 4) {
         cfg.overflow = true;
     }
